@@ -4,6 +4,7 @@ import Bmc.Proofs.GenLoops.BuildAndSend
 import Bmc.Proofs.GenLoops.BuildAndSendCommand
 import Bmc.Proofs.EndToEnd.SessionC11
 import Bmc.Proofs.EndToEnd.SessionlessC11
+import Bmc.Proofs.EndToEnd.HistoryC11
 #print axioms Bmc.Proofs.C11.session_result_matches_request
 #print axioms Bmc.Proofs.C11.stray_is_retry
 #print axioms Bmc.Proofs.C11.sessionless_result_matches_request
@@ -21,3 +22,5 @@ import Bmc.Proofs.EndToEnd.SessionlessC11
 #print axioms Bmc.Proofs.GenLoops.V2Sessionless_SendCommand_events_eq
 #print axioms Bmc.Proofs.EndToEnd.generated_loop_result_matches_request
 #print axioms Bmc.Proofs.EndToEnd.generated_sessionless_loop_result_matches_request
+#print axioms Bmc.Proofs.EndToEnd.sendCommand_result_justified
+#print axioms Bmc.Proofs.EndToEnd.generated_history_results
